@@ -230,14 +230,128 @@ def _resolve(tree: ast.Module, node: ast.expr, depth: int = 0) -> ast.expr:
     return ast.fix_missing_locations(out)
 
 
-def _excl_of_regex(node: ast.expr, name: str) -> str:
-    """`re.compile('|'.join(re.escape(c) for c in ESCAPES_INV if c not in K))` -> K."""
-    consts = [n for n in ast.walk(node) if isinstance(n, ast.Constant) and isinstance(n.value, str)]
-    if len(consts) != 2 or consts[0].value != '|':
-        raise TranslateError(f'{name}: unrecognised regex construction `{ast.unparse(node)}`')
-    k = consts[1].value
-    _expect(node, f"re.compile('|'.join(re.escape(c) for c in ESCAPES_INV if c not in {k!r}))", name, node.lineno)
-    return k
+_RE_ESC = {'r': '\r', 'n': '\n', 't': '\t', 'v': '\v', 'f': '\f', 'a': '\a'}
+
+
+def _regex_atom(pat: str, i: int, name: str) -> tuple[str, int]:
+    """One regex atom that matches exactly one fixed character, at pat[i:]: a literal, an escaped punctuation character (what
+    re.escape produces), or one of the control escapes \\r \\n \\t \\v \\f \\a.  Anything else (classes, \\b, \\d, groups ...) fails closed."""
+    if i >= len(pat):
+        raise TranslateError(f'{name}: regex alternative `{pat!r}` ends where a character is expected')
+    c = pat[i]
+    if c == '\\':
+        if i + 1 >= len(pat):
+            raise TranslateError(f'{name}: regex alternative `{pat!r}` ends in a backslash')
+        d = pat[i + 1]
+        if d in _RE_ESC:
+            return _RE_ESC[d], i + 2
+        if not d.isalnum() and d != '_':
+            return d, i + 2
+        raise TranslateError(f'{name}: regex escape `\\{d}` in `{pat!r}` is not modelled')
+    if c in '.^$*+?{}[]|()':
+        raise TranslateError(f'{name}: regex alternative `{pat!r}` is not a single character (optionally with a look-ahead)')
+    return c, i + 1
+
+
+def _regex_alternative(pat: str, name: str) -> tuple[str, str | None]:
+    """A literal alternative of the table regex: `X` -> (X, None); `X(?!Y)` -> (X, Y) (X not followed by Y).  Cross-checked with
+    the running `re`."""
+    x, i = _regex_atom(pat, 0, name)
+    if i == len(pat):
+        y = None
+    elif pat.startswith('(?!', i) and pat.endswith(')'):
+        y, j = _regex_atom(pat, i + 3, name)
+        if j != len(pat) - 1:
+            raise TranslateError(f'{name}: look-ahead in `{pat!r}` is not a single character')
+    else:
+        raise TranslateError(f'{name}: regex alternative `{pat!r}` is not a single character (optionally with a negative look-ahead for one character)')
+    try:
+        other = 'x' if y != 'x' else 'z'
+        ok = re.fullmatch(pat, x) is not None and re.match(pat, x + other) is not None and (y is None) == (re.match(pat, x + (y or other)) is not None)
+    except re.error as e:
+        raise TranslateError(f'{name}: `{pat!r}` is not a regex: {e}')
+    if not ok:
+        raise TranslateError(f'{name}: the running `re` does not read `{pat!r}` as the translator does')
+    return x, y
+
+
+def _regex_table(node: ast.expr, name: str, domain: list[str]) -> tuple[str, list[tuple[str, str]]]:
+    """`re.compile('|'.join(<alt> for c in ESCAPES_INV [if c not in K]))` -> (K, look-aheads).  `<alt>` is `re.escape(c)`, or a
+    conditional expression on `c` (`c == 'X'`, `c != 'X'`, `c in 'XY'`, `c not in 'XY'`) whose branches are `<alt>` or a string
+    literal that is a single-character regex for the one character the branch is taken for, optionally with a negative look-ahead
+    for one character (`'\\r(?!\\n)' if c == '\\r' else re.escape(c)`): the pair (X, Y) says "X is matched unless Y follows".
+    `domain`: the keys of ESCAPES_INV in order."""
+    bad = TranslateError(f'{name}: unrecognised regex construction `{ast.unparse(node)}`')
+    if not (isinstance(node, ast.Call) and ast.unparse(node.func) == 're.compile' and len(node.args) == 1 and not node.keywords):
+        raise bad
+    j = node.args[0]
+    if not (isinstance(j, ast.Call) and isinstance(j.func, ast.Attribute) and j.func.attr == 'join' and isinstance(j.func.value, ast.Constant)
+            and j.func.value.value == '|' and len(j.args) == 1 and not j.keywords and isinstance(j.args[0], (ast.GeneratorExp, ast.ListComp))
+            and len(j.args[0].generators) == 1):
+        raise bad
+    comp = j.args[0].generators[0]
+    if comp.is_async or not isinstance(comp.target, ast.Name) or not (isinstance(comp.iter, ast.Name) and comp.iter.id == 'ESCAPES_INV'):
+        raise bad
+    v = comp.target.id
+
+    def chars_of(n: ast.expr) -> set[str]:
+        if isinstance(n, ast.Constant) and isinstance(n.value, str):
+            return set(n.value)
+        if isinstance(n, (ast.Tuple, ast.List, ast.Set)) and all(isinstance(e, ast.Constant) and isinstance(e.value, str) and len(e.value) == 1 for e in n.elts):
+            return {e.value for e in n.elts}
+        raise bad
+
+    def test_set(t: ast.expr, sel: set[str]) -> set[str]:
+        """The characters of `sel` for which the test on the comprehension variable is true."""
+        if isinstance(t, ast.UnaryOp) and isinstance(t.op, ast.Not):
+            return sel - test_set(t.operand, sel)
+        if isinstance(t, ast.BoolOp):
+            parts = [test_set(v_, sel) for v_ in t.values]
+            out = parts[0]
+            for p_ in parts[1:]:
+                out = (out & p_) if isinstance(t.op, ast.And) else (out | p_)
+            return out
+        if isinstance(t, ast.Compare) and len(t.ops) == 1 and isinstance(t.left, ast.Name) and t.left.id == v:
+            op, rhs = t.ops[0], t.comparators[0]
+            if isinstance(op, (ast.Eq, ast.NotEq)) and isinstance(rhs, ast.Constant) and isinstance(rhs.value, str):
+                hit = {c for c in sel if c == rhs.value}
+                return hit if isinstance(op, ast.Eq) else sel - hit
+            if isinstance(op, (ast.In, ast.NotIn)):
+                hit = sel & chars_of(rhs)
+                return hit if isinstance(op, ast.In) else sel - hit
+        raise bad
+
+    k = ''
+    sel = set(domain)
+    for cond in comp.ifs:
+        keep = test_set(cond, sel)
+        sel = keep
+    k = ''.join(c for c in domain if c not in sel)
+    la: list[tuple[str, str]] = []
+
+    def alt(n: ast.expr, sel: set[str]) -> None:
+        if isinstance(n, ast.IfExp):
+            yes = test_set(n.test, sel)
+            alt(n.body, yes)
+            alt(n.orelse, sel - yes)
+        elif isinstance(n, ast.Call) and ast.unparse(n.func) == 're.escape' and len(n.args) == 1 and not n.keywords \
+                and isinstance(n.args[0], ast.Name) and n.args[0].id == v:
+            return
+        elif isinstance(n, ast.Constant) and isinstance(n.value, str):
+            if not sel:
+                return                    # a branch no character of the table takes
+            if len(sel) != 1:
+                raise TranslateError(f'{name}: the literal alternative `{n.value!r}` is used for several characters')
+            x, y = _regex_alternative(n.value, name)
+            if {x} != sel:
+                raise TranslateError(f'{name}: the alternative `{n.value!r}` is used for {sorted(sel)!r} but matches {x!r}')
+            if y is not None:
+                la.append((x, y))
+        else:
+            raise bad
+
+    alt(j.args[0].elt, sel)
+    return k, la
 
 
 def _coq_pairs(ps) -> str:
@@ -251,12 +365,13 @@ def _coq_ns(xs) -> str:
 C_ALWAYS, C_MULTI, C_SINGLE = 0, 1, 2
 
 
-def _escape_pipeline(tree: ast.Module, inv_map: dict[str, str]) -> tuple[list[tuple[int, str, str, str]], dict[str, str]]:
+def _escape_pipeline(tree: ast.Module, inv_map: dict[str, str]) -> tuple[list[tuple[int, str, str, str]], dict]:
     """`escape_text(text, multiline)` as a list of steps `(condition, kind, a, b)` applied to the whole string in order:
 
     * kind ``'sub'``: ``R.sub(_escape_matcher, text)`` where ``R`` is a module-level regex of the recognised table form;
       ``a`` = its exclusion string (every other character of ESCAPES_INV is replaced by its table entry);
     * kind ``'subn'``: the same substitution with a positive ``count`` (``b`` = ``chr(count)``): only the first matches are replaced;
+    * kind ``'subla'``: the substitution whose regex has negative look-aheads (``b`` = the pairs X, Y: X is matched unless Y follows);
     * kind ``'replace'``: ``text.replace(a, b)`` (Python semantics: non-overlapping, left to right, ``a`` non-empty);
       ``a``/``b`` are string literals or ``ESCAPES_INV[<literal>]``;
     * condition: always / only when ``multiline`` / only when not ``multiline`` (from ``A if multiline else B`` and from
@@ -271,14 +386,22 @@ def _escape_pipeline(tree: ast.Module, inv_map: dict[str, str]) -> tuple[list[tu
     if len(argn) != 2 or e.args.kwonlyargs or e.args.vararg or e.args.kwarg or e.args.posonlyargs:
         raise TranslateError('escape_text: unrecognised signature')
     tvar, mvar = argn
-    regs: dict[str, str] = {}
+    regs: dict[str, tuple[str, list[tuple[str, str]]]] = {}
 
-    def regex(node: ast.expr) -> str:
+    def regex(node: ast.expr) -> tuple[str, list[tuple[str, str]]]:
         if not isinstance(node, ast.Name):
             raise TranslateError(f'tokenizer.py:{node.lineno}: escape_text: regex is not a module-level name: `{ast.unparse(node)}`')
         if node.id not in regs:
-            regs[node.id] = _excl_of_regex(_resolve(tree, _top_assign(tree, node.id)), node.id)
+            regs[node.id] = _regex_table(_resolve(tree, _top_assign(tree, node.id)), node.id, list(inv_map))
         return regs[node.id]
+
+    def sub_step(cond: int, cnt: int, rx: ast.expr, node: ast.AST) -> tuple[int, str, str, str]:
+        excl, la = regex(rx)
+        if la and cnt:
+            raise TranslateError(f'tokenizer.py:{getattr(node, "lineno", "?")}: escape_text: a count-limited substitution with a look-ahead regex is not modelled')
+        if la:
+            return (cond, 'subla', excl, ''.join(x + y for x, y in la))       # b = the pairs (X, Y): X is matched unless Y follows
+        return (cond, 'sub', excl, '') if cnt == 0 else (cond, 'subn', excl, chr(cnt))   # the count travels as the one "character" of b
 
     def strval(node: ast.expr) -> str:
         if isinstance(node, ast.Constant) and isinstance(node.value, str):
@@ -381,7 +504,6 @@ def _escape_pipeline(tree: ast.Module, inv_map: dict[str, str]) -> tuple[list[tu
                 rx_node, cb, arg, cnt = sc
                 callback_ok(cb)
                 inner = steps_of(arg, cond)
-                kind, carg = ('sub', '') if cnt == 0 else ('subn', chr(cnt))       # the count travels as the one "character" of b
                 if isinstance(rx_node, ast.IfExp):
                     c = cond_of(rx_node.test)
                     other = C_SINGLE if c == C_MULTI else C_MULTI
@@ -389,9 +511,9 @@ def _escape_pipeline(tree: ast.Module, inv_map: dict[str, str]) -> tuple[list[tu
                     for cc, rx in ((c, rx_node.body), (other, rx_node.orelse)):
                         k = both(cond, cc)
                         if k is not None:
-                            out.append((k, kind, regex(rx), carg))
+                            out.append(sub_step(k, cnt, rx, node))
                     return out
-                return inner + [(cond, kind, regex(rx_node), carg)]
+                return inner + [sub_step(cond, cnt, rx_node, node)]
             if f.attr == 'replace' and len(node.args) == 2 and not node.keywords:
                 old, new = strval(node.args[0]), strval(node.args[1])
                 if not old:
@@ -461,6 +583,183 @@ def _escape_pipeline(tree: ast.Module, inv_map: dict[str, str]) -> tuple[list[tu
     return pipeline, regs
 
 
+_PURE_METHODS = {'sub', 'subn', 'get', 'items', 'keys', 'values', 'join', 'escape', 'compile', 'group', 'replace', 'match', 'search',
+                 'fullmatch', 'findall', 'finditer', 'split', 'startswith', 'endswith', 'isascii', 'translate', 'maketrans'}
+_BUILTINS_OK = {'str', 'len', 'bool', 'int', 'isinstance', 'None', 'True', 'False', 'ord', 'chr', 'any', 'all', 'min', 'max', 'sorted',
+                'tuple', 'frozenset', 'range', 'enumerate', 'zip', 'map', 'filter', 'repr', 'KeyError', 'LookupError', 'TypeError', 'ValueError'}
+
+
+def funcs_line(tree: ast.Module, name: str) -> int | None:
+    """co_firstlineno of the function `_func` finds: the line of its first decorator, else of the `def`."""
+    try:
+        f = _func(tree, name)
+    except TranslateError:
+        return None
+    return min([f.lineno] + [d.lineno for d in f.decorator_list])
+
+
+def module_level_bindings(tree: ast.Module, name: str) -> list[int]:
+    """Line numbers of the statements that bind `name` at module level (def / class / assignment / import / for / with, also inside
+    module-level if / try / with / for blocks; function and class bodies are not entered)."""
+    out: list[int] = []
+
+    def names(t: ast.AST) -> set[str]:
+        return {x.id for x in ast.walk(t) if isinstance(x, ast.Name)}
+
+    def block(stmts: list[ast.stmt]) -> None:
+        for st in stmts:
+            if isinstance(st, (ast.FunctionDef, ast.AsyncFunctionDef, ast.ClassDef)):
+                if st.name == name:
+                    out.append(st.lineno)
+                continue
+            if isinstance(st, ast.Assign) and any(name in names(t) for t in st.targets if isinstance(t, (ast.Name, ast.Tuple, ast.List))):
+                out.append(st.lineno)
+            elif isinstance(st, (ast.AnnAssign, ast.AugAssign)) and isinstance(st.target, ast.Name) and st.target.id == name \
+                    and (not isinstance(st, ast.AnnAssign) or st.value is not None):
+                out.append(st.lineno)
+            elif isinstance(st, (ast.Import, ast.ImportFrom)) and any((a.asname or a.name).split('.')[0] == name for a in st.names):
+                out.append(st.lineno)
+            elif isinstance(st, ast.Delete) and any(name in names(t) for t in st.targets):
+                out.append(st.lineno)
+            for x in ast.walk(st) if not isinstance(st, (ast.If, ast.Try, ast.With, ast.For, ast.While)) else []:
+                if isinstance(x, ast.NamedExpr) and x.target.id == name:
+                    out.append(st.lineno)
+            if isinstance(st, (ast.For, ast.AsyncFor)) and name in names(st.target):
+                out.append(st.lineno)
+            if isinstance(st, (ast.With, ast.AsyncWith)) and any(i.optional_vars is not None and name in names(i.optional_vars) for i in st.items):
+                out.append(st.lineno)
+            for fld in ('body', 'orelse', 'finalbody'):
+                sub = getattr(st, fld, None)
+                if isinstance(sub, list) and sub and isinstance(sub[0], ast.stmt):
+                    block(sub)
+            for h in getattr(st, 'handlers', []) or []:
+                block(h.body)
+
+    block(tree.body)
+    return out
+
+
+def escape_text_census(tree: ast.Module) -> list[str]:
+    """`escape_text` uses no state that outlives the call: the premise of modelling it as a FUNCTION of (text, multiline).
+    Looked at: `escape_text` and every module-level function it mentions (the substitution callback, helpers), transitively.
+    Listed (each entry is a way for one call to influence a later one - a cache of results keyed by the text alone is wrong as
+    soon as the two modes share it):
+
+    * a decorator on one of these functions (memoisation wrappers keep results between calls);
+    * a `global` / `nonlocal` statement; a parameter default that is not a literal constant;
+    * reading a module-level name that is not a constant: allowed are imported modules, module-level functions, names bound ONCE
+      at module level to a literal constant, to a `re.compile(...)` / pure expression of literals and of the escape tables, and
+      the escape tables themselves (their immutability is the tokenizer census' `table_mutation`); a name bound to a set / dict /
+      list display or constructor call, bound twice, or not bound at module level at all is listed;
+    * one of these functions is bound more than once at module level (a later `def` / assignment / wrapper such as
+      `escape_text = memoise(escape_text)` replaces what the translator reads; the selection of the Cython version at the bottom of
+      the module goes through `globals()` and only happens when the extension module exists - the check compares the objects at run
+      time: `public_names_are_the_checked_objects`);
+    * calling a method outside a list of non-mutating ones on a module-level name (`_SEEN.add(text)`), storing into / deleting an
+      attribute or item of anything that is not a local (`_CACHE[text] = r`, `escape_text.last = r`), reading an attribute of
+      one of the functions themselves."""
+    funcs = {n.name: n for n in tree.body if isinstance(n, (ast.FunctionDef, ast.AsyncFunctionDef))}
+    if 'escape_text' not in funcs:
+        return ['escape_text not found at module level']
+    imported: set[str] = set()
+    binds: dict[str, list[ast.expr | None]] = {}
+    for n in ast.walk(tree):
+        if isinstance(n, ast.Import):
+            imported |= {(a.asname or a.name).split('.')[0] for a in n.names}
+        elif isinstance(n, ast.ImportFrom):
+            imported |= {a.asname or a.name for a in n.names}
+    for n in tree.body:
+        tg: list[tuple[ast.expr, ast.expr | None]] = []
+        if isinstance(n, ast.Assign):
+            tg = [(t, n.value) for t in n.targets]
+        elif isinstance(n, ast.AnnAssign) and n.value is not None:
+            tg = [(n.target, n.value)]
+        elif isinstance(n, ast.AugAssign):
+            tg = [(n.target, None)]
+        for t, v in tg:
+            for x in ast.walk(t):
+                if isinstance(x, ast.Name):
+                    binds.setdefault(x.id, []).append(v if isinstance(t, ast.Name) else None)
+    # names bound below module level by `global` in any function are not constants either
+    rebound = {nm for f in ast.walk(tree) if isinstance(f, ast.Global) for nm in f.names}
+
+    def constant_value(v: ast.expr | None, depth: int = 0) -> bool:
+        if v is None or depth > 6:
+            return False
+        if isinstance(v, ast.Constant):
+            return True
+        if isinstance(v, (ast.Tuple,)):
+            return all(constant_value(e, depth + 1) for e in v.elts)
+        if isinstance(v, ast.Call) and ast.unparse(v.func) in ('re.compile', 'frozenset', 'tuple') and not any(isinstance(a, ast.Starred) for a in v.args):
+            return True          # immutable result; its arguments are evaluated once, at import time
+        if isinstance(v, ast.Call) and isinstance(v.func, ast.Name) and v.func.id in funcs and ast.unparse(_resolve(tree, v)) != ast.unparse(v):
+            return constant_value(_resolve(tree, v), depth + 1)
+        if isinstance(v, (ast.BinOp, ast.JoinedStr)) or (isinstance(v, ast.Call) and isinstance(v.func, ast.Attribute) and v.func.attr == 'join'):
+            return True          # str arithmetic: an immutable str
+        return False
+
+    def global_ok(nm: str) -> bool:
+        if nm in imported or nm in funcs or nm in ('ESCAPES', 'ESCAPES_INV'):
+            return True
+        if nm in binds:
+            return len(binds[nm]) == 1 and nm not in rebound and constant_value(binds[nm][0])
+        return nm in _BUILTINS_OK
+
+    out: list[str] = []
+    todo, seen = ['escape_text'], set()
+    while todo:
+        fn = todo.pop()
+        if fn in seen:
+            continue
+        seen.add(fn)
+        f = funcs[fn]
+        where = module_level_bindings(tree, fn)
+        if len(where) != 1:
+            out.append(f'{fn}: bound {len(where)} times at module level (lines {where}): the function the translator reads is not necessarily the one callers get')
+        if f.decorator_list:
+            out.append(f'{fn}:{f.lineno}: decorated with `{ast.unparse(f.decorator_list[0])[:40]}`')
+        a = f.args
+        for d in list(a.defaults) + [d for d in a.kw_defaults if d is not None]:
+            if not isinstance(d, ast.Constant):
+                out.append(f'{fn}:{f.lineno}: parameter default `{ast.unparse(d)[:40]}` is evaluated once and shared by every call')
+        local = {x.arg for x in a.args + a.kwonlyargs + a.posonlyargs} | ({a.vararg.arg} if a.vararg else set()) | ({a.kwarg.arg} if a.kwarg else set())
+        for x in ast.walk(f):
+            if isinstance(x, ast.Name) and isinstance(x.ctx, (ast.Store, ast.Del)):
+                local.add(x.id)
+            elif isinstance(x, ast.Lambda):
+                local |= {y.arg for y in x.args.args + x.args.kwonlyargs + x.args.posonlyargs}
+            elif isinstance(x, (ast.Global, ast.Nonlocal)):
+                out += [f'{fn}:{x.lineno}: {"global" if isinstance(x, ast.Global) else "nonlocal"} {nm}' for nm in x.names]
+                local -= set(x.names)
+        ann: set[int] = set()
+        for x in ast.walk(f):
+            for sub in ([x.annotation] if isinstance(x, (ast.AnnAssign, ast.arg)) and x.annotation is not None else []) + \
+                    ([x.returns] if isinstance(x, ast.FunctionDef) and x.returns is not None else []):
+                ann |= {id(y) for y in ast.walk(sub)}
+        for x in ast.walk(f):
+            if id(x) in ann:
+                continue
+            if isinstance(x, ast.Name) and isinstance(x.ctx, ast.Load) and x.id not in local:
+                if x.id in funcs:
+                    todo.append(x.id)
+                elif not global_ok(x.id):
+                    how = ('bound at module level to `' + ast.unparse(binds[x.id][0])[:30] + '`' if x.id in binds and len(binds[x.id]) == 1 and binds[x.id][0] is not None
+                           else 'bound more than once' if x.id in binds else 'not a module-level constant')
+                    out.append(f'{fn}:{x.lineno}: reads `{x.id}` ({how}): not a constant, it can carry information from one call to the next')
+            elif isinstance(x, ast.Call) and isinstance(x.func, ast.Attribute) and isinstance(x.func.value, ast.Name) \
+                    and x.func.value.id not in local and x.func.attr not in _PURE_METHODS:
+                out.append(f'{fn}:{x.lineno}: calls `{x.func.value.id}.{x.func.attr}(...)` on a module-level object')
+            elif isinstance(x, (ast.Attribute, ast.Subscript)) and isinstance(x.ctx, (ast.Store, ast.Del)):
+                base = x
+                while isinstance(base, (ast.Attribute, ast.Subscript)):
+                    base = base.value
+                if not (isinstance(base, ast.Name) and base.id in local):
+                    out.append(f'{fn}:{x.lineno}: stores into `{ast.unparse(x)[:40]}`')
+            elif isinstance(x, ast.Attribute) and isinstance(x.ctx, ast.Load) and isinstance(x.value, ast.Name) and x.value.id in funcs and x.value.id not in local:
+                out.append(f'{fn}:{x.lineno}: reads the function attribute `{ast.unparse(x)[:40]}`')
+    return sorted(set(out), key=out.index)
+
+
 def casefold_table() -> list[tuple[int, list[int]]]:
     out = []
     for c in range(0x110000):
@@ -471,7 +770,12 @@ def casefold_table() -> list[tuple[int, list[int]]]:
     return out
 
 
-def translate() -> tuple[str, dict]:
+def translate(sample=None) -> tuple[str, dict]:
+    """`sample`: optional callable (characters of ESCAPES_INV in order, table) -> (excl_single, excl_multi) or None, used ONLY when
+    the body of escape_text (or a regex) is outside the statement language: the check passes a function that runs the real
+    escape_text on every single character of the table, so that a per-character stand-in pipeline exists, every file still builds and
+    every other obligation and correspondence is still evaluated (`esc_pipeline_translated` is then false and the shape
+    obligations fail by name)."""
     text = src_text('tokenizer.py')
     tree = ast.parse(text)
     side: dict = {}
@@ -497,7 +801,18 @@ def translate() -> tuple[str, dict]:
     inv_map: dict[str, str] = {}
     for sym, ch in esc_table:
         inv_map[chr(ch)] = prefix + chr(sym)          # dict comprehension: a later symbol for the same character wins
-    pipeline, regs = _escape_pipeline(tree, inv_map)
+    pipeline_error: str | None = None
+    fallback = 'none'
+    try:
+        pipeline, regs = _escape_pipeline(tree, inv_map)
+    except TranslateError as e:
+        pipeline_error = str(e)
+        pipeline, regs = [], {}
+        got = sample(list(inv_map), dict(inv_map)) if sample is not None else None
+        if got is not None:
+            pipeline = [(C_SINGLE, 'sub', got[0], ''), (C_MULTI, 'sub', got[1], '')]
+            fallback = 'sampled: escape_text run on every single character of ESCAPES_INV, both modes'
+    state = escape_text_census(tree)
 
     # ---- BARE_DISALLOWED
     b = _top_assign(tree, 'BARE_DISALLOWED')
@@ -574,9 +889,15 @@ def translate() -> tuple[str, dict]:
         '   condition 0 = always, 1 = only if multiline, 2 = only if not multiline;',
         '   kind 0 = R.sub(_escape_matcher, text) with a = characters of ESCAPES_INV the regex R leaves alone,',
         '   kind 1 = text.replace(a, b),',
-        '   kind 2 = the substitution of kind 0 limited to its first n matches, b = [n] *)',
+        '   kind 2 = the substitution of kind 0 limited to its first n matches, b = [n],',
+        '   kind 3 = the substitution of kind 0 whose regex has negative look-aheads, b = X1 Y1 X2 Y2 ...: Xi is matched unless Yi follows *)',
         'Definition esc_pipeline : list (N * N * list N * list N) := ['
-        + '; '.join(f'({c}, {dict(sub=0, replace=1, subn=2)[k]}, {_coq_ns(map(ord, a))}, {_coq_ns(map(ord, b))})' for c, k, a, b in pipeline) + '].',
+        + '; '.join(f'({c}, {dict(sub=0, replace=1, subn=2, subla=3)[k]}, {_coq_ns(map(ord, a))}, {_coq_ns(map(ord, b))})' for c, k, a, b in pipeline) + '].',
+        '(* false: the body of escape_text (or a regex) is outside the statement language of the translator; esc_pipeline is then a',
+        '   per-character stand-in (sampled from the implementation by the check) or empty, and no shape obligation may hold *)',
+        f'Definition esc_pipeline_translated : bool := {"true" if pipeline_error is None else "false"}.',
+        '(* escape_text uses no state that outlives the call: findings of escape_text_census (texts as code points; must be empty) *)',
+        'Definition esc_state : list (list N) := [' + '; '.join(_coq_ns(map(ord, x)) for x in state) + '].',
         f'Definition bare_disallowed : list N := {_coq_ns(bare)}.',
         '(* _OPERATORS: (character, Token value) *)',
         f'Definition operators : list (N * N) := {_coq_pairs(ops.items())}.',
@@ -593,7 +914,9 @@ def translate() -> tuple[str, dict]:
     lines.append('')
 
     side.update(escapes=[[chr(s), chr(c)] for s, c in esc_table], esc_prefix=prefix,
-                escape_pipeline=[{'when': ['always', 'multiline', 'not multiline'][c], 'kind': k, 'a': a, 'b': (ord(b) if k == 'subn' else b)} for c, k, a, b in pipeline], regexes=regs,
+                escape_pipeline=[{'when': ['always', 'multiline', 'not multiline'][c], 'kind': k, 'a': a, 'b': (ord(b) if k == 'subn' else b)} for c, k, a, b in pipeline],
+                regexes={k: {'excluded': v[0], 'lookaheads': [list(p_) for p_ in v[1]]} for k, v in regs.items()},
+                escape_text_line=funcs_line(tree, 'escape_text'), escape_text_failed_closed=pipeline_error, escape_text_fallback=fallback, escape_text_state=state,
                 bare_disallowed=''.join(chr(c) for c in bare), operators={chr(k): v for k, v in ops.items()},
                 token_values=tok_vals, has_value=has_value, option_defaults=defaults, digests=digests,
                 casefold_entries=len(cf), pyx_twin=_scan_pyx())
